@@ -800,6 +800,17 @@ func (d *Driver) end(j *job) {
 		writeFile(path.Join(md, "_outs"), b)
 		writeFile(path.Join(md, "_complete"), []byte("done"))
 		d.journal(j, "complete")
+	case "stale-defs":
+		// the split leaves a well-formed _stage_defs (with more chunks than it will
+		// produce once the fault is gone) and then fails
+		chunks := make([]interface{}, j.inv.NChunks+2)
+		for i := range chunks {
+			chunks[i] = map[string]interface{}{"ci": i}
+		}
+		b, _ := json.Marshal(map[string]interface{}{"chunks": chunks, "join": map[string]interface{}{}})
+		writeFile(path.Join(md, "_stage_defs"), b)
+		writeFile(path.Join(md, "_errors"), []byte("injected failure of "+j.key+" after it had written _stage_defs"))
+		d.journal(j, "errors")
 	case "bad-stage-defs":
 		writeFile(path.Join(md, "_stage_defs"), []byte(`{"chunks": 7}`))
 		writeFile(path.Join(md, "_complete"), []byte("done"))
